@@ -371,6 +371,11 @@ def execute(store, ops, sfx, nomemo=False, diagnose=False, obs=None, stats=None)
                         break
                     if f2[0] not in ("absent", "phantom") and (fields[0] in ("absent", "phantom") or len(f2) < len(fields)):
                         fields = f2      # fields not explained by the closest earlier state either
+                if not stale and o in ("resolve", "body", "expand"):
+                    # two lookups: the redirect and its target may show two different earlier states
+                    states = m.snapshots + [m.store]
+                    stale = any(agree(o, got, Model.expected(s1, o, op["ns"], t, s2))[0]
+                                for s1 in states for s2 in states if s1 is not s2)
                 mm = {"i": i, "o": o, "fields": fields, "stale": stale, "got": repr(got), "exp": show(exp)}
                 mism.append(mm)
                 if diagnose and not op.get("dx"):
